@@ -728,8 +728,26 @@ func (g *gen) genArgsAt(pi *progInfo) ([]string, *nodeInfo) {
 			}
 		case w < wDesc && len(cur.cmds) > 0: // descend
 			nd := pi.nodes[cur.cmds[g.r.Intn(len(cur.cmds))]]
+			before := len(args)
 			args = append(args, nd.name)
 			cur = nd
+			if before > 0 && g.p(0.3) {
+				// an option token given before the command name is given again behind it, spelled the same
+				// way (the same abbreviation or alias is then resolved against another level's table)
+				var cand []int
+				for i := 0; i < before; i++ {
+					if strings.HasPrefix(args[i], "-") && args[i] != "--" && args[i] != "-" {
+						cand = append(cand, i)
+					}
+				}
+				if len(cand) > 0 {
+					i := cand[g.r.Intn(len(cand))]
+					args = append(args, args[i])
+					if i+1 < before && !strings.HasPrefix(args[i+1], "-") && g.p(0.7) {
+						args = append(args, args[i+1])
+					}
+				}
+			}
 		case w < 4.0 && pi.help != "":
 			hk := g.r.Intn(6)
 			args = append(args, []string{"--" + pi.help, pi.help, "-" + pi.help, "--" + prefixOf(g, pi.help), "-?", "-h"}[hk])
@@ -863,6 +881,17 @@ func (g *gen) genCase(id int) *Case {
 		c.Args = []string{"./prog", cur, prev}
 		if g.p(0.1) {
 			c.Args = []string{}
+		} else if g.p(0.12) {
+			// arguments that do not match the line: a current word although the line ends in white space,
+			// more or fewer than three arguments
+			alt := []string{"x", "-", "--", prev, "e"}
+			c.Args = []string{"./prog", alt[g.r.Intn(len(alt))], prev}
+			if g.p(0.3) {
+				c.Args = append(c.Args, "extra")
+			}
+			if g.p(0.15) {
+				c.Args = c.Args[:2]
+			}
 		}
 		return c
 	}
